@@ -677,4 +677,3 @@ func rootLocalOrRecv(f *eng.Fn, e ast.Expr) string {
 	}
 	return f.Norm(e, nil)
 }
-
